@@ -56,6 +56,7 @@ theorem move_gone_invI (s : St) (m : Move) :
       refine ⟨fun i h => by simp [clearAll, h], fun _ h => by simp [clearAll] at h, fun _ => Or.inr ?_⟩
       simpa [clearAll] using hp
     · exact ⟨fun _ h => h, fun h => h, fun h => Or.inl h⟩
+  case failCreate => exact ⟨fun _ h => h, fun h => h, fun h => Or.inl h⟩
 
 theorem invI_reach (ms : List Move) : InvI (reach ms) := by
   have : ∀ (s : St), InvI s → InvI (runMoves s ms) := by
